@@ -25,12 +25,28 @@ MANIFEST = {
             "consumed; #steps = #PDUs, or #PDUs + 1 exactly when a later step produced an empty token), C15_stops (one leg per step, every leg before the last step incomplete, no PDU for or "
             "after a later empty token), C15_header_sign (final sign_header = every processed ack carried the flag; Bind offers 4; PDU j offers it iff the first j acks all carried it), "
             "C15_fail_closed (reply k of the wrong kind => ValueError and exactly k+1 PDUs; unanswered PDU => EOFError, last PDU), C15_error_causes (the only failures: EOF, wrong reply, "
-            "IndexError from a result vector shorter than the contexts it answers, KeyError when the provider script is exhausted), C15_result, C15_anonymous (one Bind, flags 0, no token).",
+            "IndexError from a result vector shorter than the contexts it answers, KeyError when the provider script is exhausted), C15_result, C15_anonymous (one Bind, flags 0, no token). "
+            "Lower bound: C15_progress / C15_leg_count (a bind that returns stepped the provider exactly up to the first leg that is complete or - after the first - yields an empty token). "
+            "Composition: C15_request_context (bind then _process_bind_result: the context is one this server's bind_ack accepted). C15_send_pdu_classification: the model's classification of a reply is the class check of _process_response.",
     "note": "The handshake model is hand-written around regenerated guard kernels (tie by correspondence for the rest). The authentication provider and the server are scripts; pyspnego itself is not modelled.",
     "technique": "Coq proof (induction over scripts, regenerated guards) + enumerated-script trace correspondence",
 }
 ASSUMPTIONS = ["the authentication provider produces one token per step and reports completion (scripted in the harness)",
                "PDU encode/decode of bind-family PDUs (property C12) is used to script the server and to read the client's PDUs back"]
+PARTIAL = [
+    "C15_progress / C15_leg_count (the lower bound: tokens are fed back for exactly as long as the context is incomplete and tokens keep coming) are stated for runs that RETURN "
+    "(bind_run = Ok); for runs that fail the number of legs stepped is bounded above only (C15_stops, C15_fail_closed) -- how far a failing run got is fixed by C15_fail_closed / "
+    "C15_error_causes through the position of the offending reply, not by a leg count",
+    "SyncRpcClient.bind is tied to the source only syntactically (C15_flow_bind_twin: the async body with every `await self._wrap_sync(a.m, ..)` replaced by `a.m(..)`): "
+    "`self._auth.step(..)` is a method call on an attribute of a local, whose effect on the provider the interpreter of Prelude/PyAst.v cannot express; the semantic tie "
+    "(C15_flow_async_bind = Handshake.bind_run) is for AsyncRpcClient.bind, the sync flavour rests on the twin theorem plus the trace correspondence handshake.scripts (both flavours)",
+    "Handshake.send_pdu is an abstraction (result codes, packet_flags, auth_value of each ack; the transport and PDU decoding are a script of replies): C15_send_pdu_classification "
+    "ties its classification of a reply to the source's _process_response (through Seal.process_pdu_as, C16_flow_process_response_as) for replies that DECODE; a reply whose octets do "
+    "not decode (PDU.unpack raises) has no Handshake.reply -- the model's scripts do not contain such replies; C12/C05 cover the decoders, and _send_pdu's read loops are C14",
+    "'a request is only issued on a context the server accepted' is C15_context (the check), C15_request_context (bind() then the check, the order of _sync_get_key) and, over the whole "
+    "conversation and stated on what goes on the wire, C17_request_on_accepted_context (Properties/C17.v: it needs Model/Conversation.v, which is C17's cone)",
+    "the provider and the server are scripts (ASSUMPTIONS): pyspnego's own state machine is not modelled; the provider is assumed to yield one token per step and to report completion",
+]
 RULE = ("server scripts of depth <= 3 (thorough 4) over {bind_ack/alter_context_resp x result vectors x header-sign flag x token/no token, bind_nak, fault, response, EOF} x provider "
         "scripts of 1..4 legs incl. empty final token and early completion x both flavours x anonymous binds; non-trivial = all; distinct = distinct case text")
 
@@ -239,11 +255,22 @@ def oracle(arg):
 
 
 def pred(arg, out):
+    """The property on the implementation's output.  Successful runs: result vector, PDUs sent, step() arguments, header-signing state and
+    unread replies must be those of the reference run.  Runs the property only says FAIL (EOF, bind_nak / fault / PDU of another type, a
+    result vector shorter than the contexts it answers): an error of ANY class is accepted -- a hardening that raises ValueError where the
+    pinned code raises IndexError, or that leaves another post-error state, is not a violation -- but it must be an error (fail closed) and
+    no PDU other than the reference run's may have gone out (nothing is sent after, or instead of, the failing exchange)."""
     want = oracle(arg)
     if want is None:
         return None  # provider script exhausted: outside the property's quantifier
     if out is None:
         return "no output"
+    if isinstance(want[0], Err):
+        if not isinstance(out[0], Err):
+            return f"fail closed: the reference run ends in {want[0]} but the implementation returned {str(out[0])[:120]}"
+        if want[1] != out[1]:
+            return f"PDUs sent before the failure: expected {str(want[1])[:120]} observed {str(out[1])[:120]}"
+        return None
     names = ["result", "PDUs sent (type, flags, token, contexts)", "provider.step arguments", "header signing state", "server replies left unread"]
     for i, nm in enumerate(names):
         a, b = want[i], out[i]
